@@ -55,8 +55,10 @@ def rule_a(ck, R):
                     t = opt_test(c, PL)
                     if t is False:
                         why.append('no-plcrc-bit')
-                    if c[0] == 'cmp' and c[1] == '==' and c[3] == C(0) and 'payload.size' in fmt(c[2]):
-                        why.append('empty-payload')
+                # "empty payload" must be entailed by the path, not merely mentioned in it
+                psz = ('f', ('&', ('f', F, 'payload')), 'size')
+                if R.eng.entails(R.eng.path_facts(p), L(psz)):
+                    why.append('empty-payload')
                 if not why:
                     bad = ('the payload checksum comparison is skipped under {%s}: only an unset WITH-PAYLOAD-CRC bit or an empty payload may skip it '
                            '(a frame declaring a payload checksum but no header checksum is accepted unverified)' % '; '.join(fmt(c) for c in p.cond_terms()))
